@@ -392,6 +392,125 @@ def layer_e2e_cget(ctx, n, per, diff=True, c18=False):
 
 
 # ---------------------------------------------------------------------------
+# E. a request that arrives directly behind the A-ASSOCIATE-AC that rejects its context
+def early_request_scenario(delay):
+    """A scripted acceptor answers the association request with an A-ASSOCIATE-AC that accepts context 1 and REJECTS
+    context 3 and, in the same write, an N-EVENT-REPORT-RQ on context 3 (the one request a requestor serves from its
+    provider thread before the reactor runs).  A slow EVT_ACSE_RECV observer on the requestor keeps the window between
+    "AC received" and "negotiation result stored" open for `delay` seconds."""
+    import socket
+    import threading
+    import time
+
+    from pynetdicom import AE, evt
+    from pynetdicom.dimse_messages import N_EVENT_REPORT_RQ
+    from pynetdicom.dimse_primitives import N_EVENT_REPORT
+    from pynetdicom.pdu import A_ASSOCIATE_AC, A_ASSOCIATE_RQ, P_DATA_TF
+    from pynetdicom.pdu_primitives import A_ASSOCIATE
+    from pynetdicom.sop_class import StorageCommitmentPushModel, Verification
+
+    L.quiet() if hasattr(L, "quiet") else None
+    lst = socket.socket()
+    lst.bind(("127.0.0.1", 0))
+    lst.listen(1)
+    got = {"replies": []}
+
+    def peer():
+        c, _ = lst.accept()
+        c.settimeout(delay + 3.0)
+        try:
+            raw = c.recv(65536)
+            rq = A_ASSOCIATE_RQ()
+            rq.decode(raw)
+            prim = rq.to_primitive()
+            ac = A_ASSOCIATE()
+            ac.application_context_name = prim.application_context_name
+            ac.calling_ae_title, ac.called_ae_title = prim.calling_ae_title, prim.called_ae_title
+            ac.result = 0x00
+            cxs = []
+            for cx in prim.presentation_context_definition_list:
+                from pynetdicom.presentation import PresentationContext
+
+                r = PresentationContext()
+                r.context_id = cx.context_id
+                r.transfer_syntax = [cx.transfer_syntax[0]]
+                r.result = 0x00 if cx.context_id == 1 else 0x03  # abstract syntax not supported
+                cxs.append(r)
+            ac.presentation_context_definition_results_list = cxs
+            ac.user_information = prim.user_information
+            pdu = A_ASSOCIATE_AC()
+            pdu.from_primitive(ac)
+            ev = N_EVENT_REPORT()
+            ev.MessageID = 7
+            ev.AffectedSOPClassUID = StorageCommitmentPushModel
+            ev.AffectedSOPInstanceUID = "1.2.840.10008.1.20.1.1"
+            ev.EventTypeID = 1
+            msg = N_EVENT_REPORT_RQ()
+            msg.primitive_to_message(ev)
+            out = pdu.encode()
+            for pd in msg.encode_msg(3, 16382):
+                out += P_DATA_TF(pd).encode()
+            c.sendall(out)
+            got["sent"] = True
+            while True:
+                d = c.recv(65536)
+                if not d:
+                    break
+                got["replies"].append(d[0])
+        except OSError:
+            pass
+        except Exception:
+            import traceback
+
+            got["error"] = traceback.format_exc()[-800:]
+        finally:
+            c.close()
+
+    th = threading.Thread(target=peer, daemon=True)
+    th.start()
+    calls = []
+
+    def on_event_report(event):
+        calls.append(event.context.context_id)
+        return 0x0000, None
+
+    ae = AE()
+    ae.add_requested_context(Verification)
+    ae.add_requested_context(StorageCommitmentPushModel)
+    ae.acse_timeout = ae.dimse_timeout = ae.network_timeout = delay + 2.0
+    handlers = [(evt.EVT_N_EVENT_REPORT, on_event_report)]
+    if delay:
+        handlers.append((evt.EVT_ACSE_RECV, lambda e: time.sleep(delay)))
+    try:
+        assoc = ae.associate("127.0.0.1", lst.getsockname()[1], evt_handlers=handlers)
+        time.sleep(0.3)
+        acc = sorted(assoc._accepted_cx) if assoc.is_established else None
+        if assoc.is_established:
+            assoc.abort()
+        th.join(delay + 4.0)
+        return {"calls": calls, "accepted": acc, "replies": got["replies"], "sent": got.get("sent", False), "error": got.get("error")}
+    finally:
+        lst.close()
+
+
+def layer_early_request(ctx):
+    for delay in ((0, 0.3) if ctx.quick else (0, 0.05, 0.3, 0.3, 1.0)):
+        r = early_request_scenario(delay)
+        case = ["early-request", delay]
+        ctx.case(case, nontrivial=True, kind=f"early-request:{'slow' if delay else 'fast'}-observer")
+        if not r["sent"]:
+            ctx.diff(case, r, "n/a", "scenario harness failed: the scripted acceptor did not get its PDUs out")
+            continue
+        if r["calls"]:
+            ctx.fail("serve-request:unaccepted-id-reaches-handler:nEventReport:during-negotiation",
+                     f"N-EVENT-REPORT request sent directly behind the A-ASSOCIATE-AC on context 3, which that AC rejects, "
+                     f"reached the handler (contexts {r['calls']}); accepted after negotiation: {r['accepted']}", case)
+        if 4 in r["replies"] and r["calls"] == []:
+            ctx.fail("serve-request:unaccepted-id-answered:nEventReport:during-negotiation",
+                     "the request on the rejected context was answered with a P-DATA", case)
+
+
+# ---------------------------------------------------------------------------
 def e2e_plan(ctx):
     bad_ids = [0, 2, 5, 21, 99, 255]      # zero, even, rejected (MR), never proposed x2, maximum
     if ctx.quick:
@@ -423,6 +542,7 @@ def run(ctx):
     layer_e2e_serve(ctx, e2e_plan(ctx))
     layer_e2e_mixed(ctx)
     layer_e2e_cget(ctx, ctx.n(3, 30), 8)
+    layer_early_request(ctx)
     ctx.exhaustive = not ctx.quick
 
 
@@ -445,6 +565,10 @@ def replay(ctx, case):
         print(f"{d['kind']} request (class {d['cls']}, valid={valid}, release sent={d['rel']}) on context {d['cid']}:")
         print("  handler calls:", calls, " responses on:", sent, " aborts:", aborts)
         return 1 if d["cid"] not in acc and (calls or sent) else 0
+    if c[0] == "early-request":
+        r = early_request_scenario(c[1])
+        print(r)
+        return 1 if r["calls"] or 4 in r["replies"] else 0
     if c[0] in ("substore", "e2e-cget"):
         d = c[1]
         acc = L.acc_of_case(d["acc"])
